@@ -7,6 +7,7 @@ or on leaving bare-word strings unquoted; corpus files are perturbed between
 the implementation's own token boundaries."""
 import re
 from checklib import parsing
+import json
 from gens import docs, sweep, harness
 
 MANIFEST = dict(
@@ -132,10 +133,17 @@ def run(ctx):
               ("LAYER NAME foo# c\n END", "LAYER NAME foo END", "sep:hash-after-bareword"),
               ("MAP/* c */NAME/* c */'x'/* c */END", "MAP NAME 'x' END", "sep:c-comment-unpadded"),
               ("MAP NAME 'x'# c\nEND", "MAP NAME 'x' END", "sep:hash-after-string")]
+    # a keyword spelled __type__ (found by the universal separator proof, whose unguarded form is false exactly
+    # here): composite() files the attribute as a block and its position record leaks into the plain dictionary
+    probes.append(("\nMAP __type__ x END", "MAP __type__ x END", "sep:attr-named-__type__-leaks-position"))
     for a, b, fp in probes:
         ctx.note_case(a)
         try:
-            da = docs.plain(sweep.fast_loads(a)); db = docs.plain(sweep.fast_loads(b))
+            raw = fp.endswith("leaks-position")
+            da = sweep.fast_loads(a) if raw else docs.plain(sweep.fast_loads(a))
+            db = sweep.fast_loads(b) if raw else docs.plain(sweep.fast_loads(b))
+            if raw:
+                da, db = json.loads(json.dumps(da)), json.loads(json.dumps(db))
             if not sweep.same(da, db):
                 ctx.violation(fp, "an unpadded comment changes the dictionary: %r loads as %r" % (a, da), {"text": a, "reference": b})
         except Exception as ex:
